@@ -113,7 +113,7 @@ LIB_CFGS = [
     {"prefix": None, "suffix": None, "stop": ["\nuser ", "\nUser "]},
     {"prefix": '  "', "suffix": '"', "stop": ['"\n', "\nuser "]},
 ]
-WORDS = ["Hello", " there", "!", " This is", " a message", ".", " \"quoted\"", "\n", "User", " intent: ", "ask", " question", "é", "  ", "user ", "Bot", " message: ", ":"]
+WORDS = ["Hello", " there", "!", " This is", " a message", ".", " \"quoted\"", "\n", "User", " intent: ", "ask", " question", "é", "  ", "user ", "Bot", " message: ", ":", "\u00a0", "\u2028", "\u3000", "e\u0301"]
 
 
 def g_word(rng, alpha, lo, hi):
@@ -274,6 +274,8 @@ def g_usage_long(rng, sites, nsamples):
     r = rng.random()
     tail = "" if r < 0.4 else "\n" if r < 0.6 else "\nbot ask" + rng.choice(["", " more\n  \"x\""]) if r < 0.85 else "\n\n"
     line3 = (site["prefix"] if rng.random() < 0.9 else "") + msg + (site["suffix"] if rng.random() < 0.9 else "")
+    if rng.random() < 0.04:
+        line3 = line3.replace(" ", "\u00a0", 1)  # a NO-BREAK SPACE where the pattern expects a space: the prefix is NOT there
     text = rng.choice(["", "\n", "# c\n", "\u00a0\n", " \u2028\t\n", "\u3000# c\n"]) + intent + "\n" + rng.choice(["", "\n", "\u00a0\u0085\n"]) + botint + "\n" + line3 + tail
     if not site["buffered"]:
         text = line3 + tail
